@@ -184,49 +184,56 @@ def zipStar {α} : List (List α) → List (List α)
   | [c] => c.map (fun x => [x])
   | c :: cs => List.zipWith (fun x r => x :: r) c (zipStar cs)
 
-/-- what `save_scsv` appends to the row for one datum: the missing marker or `str(d)`;
-includes the trial parse. `ValueError`s are reported as `Err.value` and turned into the
-SCSV error by the caller. -/
-def saveCell (E : FloatExt) (missing : Str) (t : Ty) (fill : PyVal) (d : Val) : Except Err Str := do
+/-- the trial parse of `str(d)` in `save_scsv`; a `ValueError` is re-raised as
+`SCSVError("invalid data …")` -/
+def trialParse (E : FloatExt) (missing : Str) (t : Ty) (fill : PyVal) (d : Val) : Except Err Unit :=
+  match parseCell E t (pyStr E d) missing fill with
+  | .error .value => .error .scsv
+  | .error e => .error e
+  | .ok _ => .ok ()
+
+/-- the fill substitution of `save_scsv`: the missing marker or `str(d)`.
+(`isinstance(t, bool)` is a test on a type object and is always False; boolean columns fall
+through to the final `else`, which does the same.) -/
+def substitute (E : FloatExt) (missing : Str) (t : Ty) (fill : PyVal) (d : Val) : Except Err Str :=
   let text := pyStr E d
-  -- trial parse; a ValueError here is re-raised as SCSVError("invalid data ...")
-  match parseCell E t text missing fill with
-  | .error .value => throw .scsv
-  | .error e => throw e
-  | .ok _ => pure ()
   match t with
-  | .bool => pure text                      -- `isinstance(t, bool)` is False; falls to `else`
+  | .bool => .ok text
   | .float =>
     match d with
     | .float x =>
-      let tf ← construct E .float fill
-      match tf with
-      | .float y => if (fIsNaN x && fIsNaN y) || fEq x y then pure missing else pure text
-      | _ => throw .unmodelled
-    | .str _ => throw .type                 -- `np.isnan(str)`
-    | _ => throw .unmodelled
+      (construct E .float fill).bind fun tf =>
+        match tf with
+        | .float y => .ok (if (fIsNaN x && fIsNaN y) || fEq x y then missing else text)
+        | _ => .error .unmodelled
+    | .str _ => .error .type                 -- `np.isnan(str)`
+    | _ => .error .unmodelled
   | .complex =>
     match d with
     | .complex a b =>
-      let tf ← construct E .complex fill
-      match tf with
-      | .complex c e =>
-        if ((fIsNaN a || fIsNaN b) && (fIsNaN c || fIsNaN e)) || (fEq a c && fEq b e) then pure missing
-        else pure text
-      | _ => throw .unmodelled
-    | .str _ => throw .type
-    | _ => throw .unmodelled
+      (construct E .complex fill).bind fun tf =>
+        match tf with
+        | .complex c e =>
+          .ok (if ((fIsNaN a || fIsNaN b) && (fIsNaN c || fIsNaN e)) || (fEq a c && fEq b e) then missing else text)
+        | _ => .error .unmodelled
+    | .str _ => .error .type
+    | _ => .error .unmodelled
   | .int =>
-    let tf ← construct E .int fill
-    match d, tf with
-    | .int i, .int j => if i = j then pure missing else pure text
-    | .bool b, .int j => if (if b then 1 else 0) = j then pure missing else pure text
-    | .str _, _ => pure text
-    | _, _ => throw .unmodelled
+    (construct E .int fill).bind fun tf =>
+      match d, tf with
+      | .int i, .int j => .ok (if i = j then missing else text)
+      | .bool b, .int j => .ok (if (if b then 1 else 0) = j then missing else text)
+      | .str _, _ => .ok text
+      | _, _ => .error .unmodelled
   | .str =>
     match d with
-    | .str s => if s = pyStrP E fill then pure missing else pure text
-    | _ => pure text
+    | .str s => .ok (if s = pyStrP E fill then missing else text)
+    | _ => .ok text
+
+/-- what `save_scsv` appends to the row for one datum: the missing marker or `str(d)`, after the
+trial parse. `ValueError`s are reported as `Err.value` and turned into the SCSV error by the caller. -/
+def saveCell (E : FloatExt) (missing : Str) (t : Ty) (fill : PyVal) (d : Val) : Except Err Str :=
+  (trialParse E missing t fill d).bind fun _ => substitute E missing t fill d
 
 /-- `for i, (d, t, f) in enumerate(zip(col, types, fills, strict=True))` -/
 def saveRowCells (E : FloatExt) (missing : Str) : List Val → List (Ty × PyVal) → Except Err (List Str)
@@ -252,26 +259,26 @@ def saveRows (E : FloatExt) (d : Char) (missing : Str) (tfs : List (Ty × PyVal)
 
 def fence : Str := "---".toList
 
+/-- the body of the `try` block of `save_scsv`: header, column names, rows -/
+def saveBody (E : FloatExt) (s : Schema) (data : List (List Val)) : Except Err (List Str) :=
+  (validate s).bind fun ok =>
+    if !ok then .error .scsv else
+    match s.delimiter, s.missing, s.fields with
+    | some dl, some m, some fs =>
+      match dl with
+      | [d] =>
+        (saveRows E d m (fs.map (fun f => ((typeOf f.typeName).getD .str, f.fillVal))) (zipStar data)).map
+          fun rows => fence :: headerLines E dl m fs ++ [fence] ++ Csv.writeRow d (fs.map (fun f => f.name.getD [])) :: rows
+      | _ => .error .type                                      -- csv.writer: 1-character delimiter
+    | _, _, _ => .error .unmodelled
+
 /-- the lines (without terminators) of the file written by `save_scsv(file, schema, data)` -/
 def saveLines (E : FloatExt) (s : Schema) (data : List (List Val)) : Except Err (List Str) :=
   match data with
   | [] => .error .index                                     -- `len(data[0])`
   | c0 :: cs =>
-    if cs.any (fun c => c.length ≠ c0.length) then .error .scsv else
-    valueToScsv do
-      let ok ← validate s
-      if !ok then throw .scsv
-      match s.delimiter, s.missing, s.fields with
-      | some dl, some m, some fs =>
-        let header := fence :: headerLines E dl m fs ++ [fence]
-        match dl with
-        | [d] =>
-          let tfs := fs.map (fun f => ((typeOf f.typeName).getD .str, f.fillVal))
-          let names := fs.map (fun f => f.name.getD [])
-          let rows ← saveRows E d m tfs (zipStar data)
-          pure (header ++ Csv.writeRow d names :: rows)
-        | _ => throw .type                                    -- csv.writer: 1-character delimiter
-      | _, _, _ => throw .unmodelled
+    if cs.any (fun c => c.length ≠ c0.length) then .error .scsv
+    else valueToScsv (saveBody E s data)
 
 def joinLines (ls : List Str) : Str := ls.flatMap (· ++ ['\n'])
 
@@ -387,31 +394,33 @@ def parseColumns (E : FloatExt) (missing : Str) : List (Ty × PyVal) → List (L
     pure (v :: vs)
   | _, _ => .error .value                  -- zip(strict=True)
 
-/-- `read_scsv` on the lines of the file (each with its terminator): field names and columns -/
-def readLines (E : FloatExt) (lines : List Str) : Except Err (List Str × List (List Val)) := do
-  let (yamlLines, csvLines) := fenceSplit lines false false
-  let s ← parseHeader yamlLines
-  let ok ← validate s
-  if !ok then throw .scsv
+/-- the typed parsing at the end of `read_scsv`, inside `try: … except ValueError: raise SCSVError` -/
+def readTyped (E : FloatExt) (m : Str) (tfs : List (Ty × PyVal)) (rows : List (List Str)) :
+    Except Err (List (List Val)) :=
+  valueToScsv ((optErr .value (zipStarStrict rows)).bind fun cols => parseColumns E m tfs cols)
+
+/-- `read_scsv` after the schema has been validated -/
+def readBody (E : FloatExt) (s : Schema) (csvLines : List Str) : Except Err (List Str × List (List Val)) :=
   match s.delimiter, s.missing, s.fields with
   | some dl, some m, some fs =>
     match dl with
     | [d] =>
-      let rows ← optErr .csv (Csv.readRows d csvLines)
-      match rows with
-      | [] => throw .stopIteration                            -- `next(reader)`
-      | hdr :: rows =>
-        let names := fs.map (fun f => f.name.getD [])
-        if names ≠ hdr.map strip then throw .scsv
-        if !namedtupleOK names then throw .value
-        let tfs := fs.map (fun f => ((typeOf f.typeName).getD .str, f.fillVal))
-        -- `try: … except ValueError: raise SCSVError` around the typed parsing
-        let vals ← valueToScsv do
-          let cols ← optErr .value (zipStarStrict rows)
-          parseColumns E m tfs cols
-        pure (names, vals)
-    | _ => throw .type                                         -- csv.reader: 1-character delimiter
-  | _, _, _ => throw .unmodelled
+      (optErr .csv (Csv.readRows d csvLines)).bind fun rows =>
+        match rows with
+        | [] => .error .stopIteration                           -- `next(reader)`
+        | hdr :: rows =>
+          if fs.map (fun f => f.name.getD []) ≠ hdr.map strip then .error .scsv
+          else if !namedtupleOK (fs.map (fun f => f.name.getD [])) then .error .value
+          else (readTyped E m (fs.map (fun f => ((typeOf f.typeName).getD .str, f.fillVal))) rows).map
+            fun vals => (fs.map (fun f => f.name.getD []), vals)
+    | _ => .error .type                                         -- csv.reader: 1-character delimiter
+  | _, _, _ => .error .unmodelled
+
+/-- `read_scsv` on the lines of the file (each with its terminator): field names and columns -/
+def readLines (E : FloatExt) (lines : List Str) : Except Err (List Str × List (List Val)) :=
+  (parseHeader (fenceSplit lines false false).1).bind fun s =>
+    (validate s).bind fun ok =>
+      if !ok then .error .scsv else readBody E s (fenceSplit lines false false).2
 
 /-- `read_scsv(file)` on the text of the file -/
 def read (E : FloatExt) (txt : Str) : Except Err (List Str × List (List Val)) :=
